@@ -6,6 +6,7 @@ package c11
 
 import (
 	"fmt"
+	"math"
 	"runtime"
 	"runtime/debug"
 	"sort"
@@ -158,12 +159,14 @@ type crule struct {
 	sets    [][]int
 	acl     *pb.Acl
 	inexact bool // some weight is not exactly representable (0.4)
+	neg     bool // some member weight is negative
 }
 
+// tenths converts a weight / accept value (any sign) into exact tenths.
 func tenths(f float64) (int, error) {
-	t := int(f*10 + 0.5)
-	if f < 0 || float64(t)/10 != f {
-		return 0, fmt.Errorf("weight/accept %v is not a non-negative multiple of 0.1", f)
+	t := int(math.Floor(f*10 + 0.5))
+	if math.IsNaN(f) || math.IsInf(f, 0) || math.Abs(f) > 1e13 || float64(t)/10 != f {
+		return 0, fmt.Errorf("weight/accept %v is not a multiple of 0.1 of magnitude <= 1e13", f)
 	}
 	return t, nil
 }
@@ -195,6 +198,9 @@ func compile(spec ruleSpec) (*crule, error) {
 			c.w10[id] = t
 			if t%5 != 0 {
 				c.inexact = true
+			}
+			if t < 0 {
+				c.neg = true
 			}
 			acl.AksWeight[realName[id]] = w
 		}
@@ -332,6 +338,8 @@ var uriUniverse = []string{
 }
 
 type listSet struct {
+	syms   []string   // symbolic universe
+	canon  []int32    // per list: index of the same entries in ascending universe order
 	uris   [][]int    // parsed universe
 	real   []string   // real strings of the universe
 	lists  [][]uint8  // every enumerated list (indices into the universe)
@@ -342,8 +350,16 @@ type listSet struct {
 }
 
 func buildLists(tier core.Tier) *listSet {
-	ls := &listSet{index: map[string]int32{}}
-	for _, s := range uriUniverse {
+	return buildListsOver(uriUniverse, 3, tier == core.Thorough)
+}
+
+// buildListsOver enumerates every ordered list of size <= allOrdered over the
+// universe; with size4 every size-4 multiset in three orders on top (allOrdered
+// must be 3 then). The family is closed under deleting one entry and under
+// sorting.
+func buildListsOver(universe []string, allOrdered int, size4 bool) *listSet {
+	ls := &listSet{index: map[string]int32{}, syms: universe}
+	for _, s := range universe {
 		u, err := parseURI(s)
 		if err != nil {
 			panic(err)
@@ -351,7 +367,7 @@ func buildLists(tier core.Tier) *listSet {
 		ls.uris = append(ls.uris, u)
 		ls.real = append(ls.real, realURI(u))
 	}
-	n := len(uriUniverse)
+	n := len(universe)
 	add := func(l []uint8) {
 		k := string(l)
 		if _, ok := ls.index[k]; ok {
@@ -362,7 +378,7 @@ func buildLists(tier core.Tier) *listSet {
 	}
 	// all ordered lists of size <= 3
 	add(nil)
-	for size := 1; size <= 3; size++ {
+	for size := 1; size <= allOrdered; size++ {
 		total := 1
 		for i := 0; i < size; i++ {
 			total *= n
@@ -377,7 +393,7 @@ func buildLists(tier core.Tier) *listSet {
 			add(l)
 		}
 	}
-	if tier == core.Thorough {
+	if size4 {
 		// size 4: every multiset, in ascending order, rotated by one and reversed
 		l := make([]uint8, 4)
 		for a := 0; a < n; a++ {
@@ -422,6 +438,13 @@ func buildLists(tier core.Tier) *listSet {
 			}
 		}
 		ls.subs = append(ls.subs, sub)
+		srt := append([]uint8{}, l...)
+		sort.Slice(srt, func(a, b int) bool { return srt[a] < srt[b] })
+		ci, ok := ls.index[string(srt)]
+		if !ok {
+			panic("c11: list family not closed under sorting")
+		}
+		ls.canon = append(ls.canon, ci)
 	}
 	return ls
 }
@@ -429,7 +452,7 @@ func buildLists(tier core.Tier) *listSet {
 func (ls *listSet) symbolic(li int) []string {
 	out := []string{}
 	for _, x := range ls.lists[li] {
-		out = append(out, uriUniverse[x])
+		out = append(out, ls.syms[x])
 	}
 	return out
 }
@@ -545,7 +568,13 @@ type refEval struct {
 	ambig    bool
 	kinds    uint8 // which silent spots were consulted (bit per ambKind)
 	rootSat  int
-	buf      [8]int
+	// rootThr: the judged rule is a threshold rule; rootMargin = exact sum of the
+	// satisfied members' weights minus the accept value, in tenths. negSat: at some
+	// evaluated node a member of negative weight was satisfied.
+	rootThr    bool
+	rootMargin int
+	negSat     bool
+	buf        [8]int
 	// forceMid: names in the middle of a path are unverified whatever the probe of
 	// the signature stage says (Part D: the harness signs with the last segment's
 	// key only, and the initiator string is not covered by that probe)
@@ -597,7 +626,14 @@ func (e *refEval) evalRule(r *crule, plen int, root bool) bool {
 				if r.w10[m]%5 != 0 {
 					inexact = true
 				}
+				if r.w10[m] < 0 {
+					e.negSat = true
+				}
 			}
+		}
+		if root {
+			e.rootThr = true
+			e.rootMargin = sum - r.acc10
 		}
 		if sum == r.acc10 && inexact {
 			e.ambig = true
@@ -709,7 +745,7 @@ func referenceWith(e *refEval, c *config, uris [][]int) (bool, bool, int) {
 
 type caseA struct {
 	Part    string              `json:"part"`
-	Check   string              `json:"check"` // oracle | monotone
+	Check   string              `json:"check"` // oracle | monotone | order
 	Target  string              `json:"target"`
 	Rules   map[string]ruleSpec `json:"rules"`
 	Signers []string            `json:"signers"`
@@ -818,6 +854,30 @@ func classify(c *config, m *mapMgr, uris [][]int, implOut int, expected bool) st
 		o, _ := impl(c, m, real)
 		return o == outAccept
 	}
+	// the same entries in another order are refused: the verdict is not a function
+	// of the signer set
+	if len(uris) <= 5 {
+		real := make([]string, len(uris))
+		refused := false
+		permute(len(uris), func(perm []int) bool {
+			for i, x := range perm {
+				real[i] = realURI(uris[x])
+			}
+			if o, _ := impl(c, m, real); o != outAccept {
+				refused = true
+				return false
+			}
+			return true
+		})
+		if refused {
+			return "c11.unsatisfied_rule_accepted_in_some_signer_order"
+		}
+	}
+	// with a negative weight in play deleting entries may legitimately turn a
+	// refusal into an acceptance: the reduction probes below cannot name the class
+	if c.hasNegativeWeight() {
+		return "c11.unsatisfied_rule_with_negative_weight_accepted"
+	}
 	// repeated entries
 	if !ask(func(i int, u []int) bool {
 		for j := 0; j < i; j++ {
@@ -877,10 +937,54 @@ func classify(c *config, m *mapMgr, uris [][]int, implOut int, expected bool) st
 	return "c11.unsatisfied_rule_accepted_without_signers"
 }
 
+// permute calls f with every permutation of 0..n-1 (lexicographic order) until f
+// returns false.
+func permute(n int, f func([]int) bool) {
+	perm := make([]int, n)
+	used := make([]bool, n)
+	var rec func(k int) bool
+	rec = func(k int) bool {
+		if k == n {
+			return f(perm)
+		}
+		for i := 0; i < n; i++ {
+			if used[i] {
+				continue
+			}
+			used[i] = true
+			perm[k] = i
+			ok := rec(k + 1)
+			used[i] = false
+			if !ok {
+				return false
+			}
+		}
+		return true
+	}
+	rec(0)
+}
+
+func (c *config) hasNegativeWeight() bool {
+	for _, r := range c.rules {
+		if r != nil && r.neg {
+			return true
+		}
+	}
+	return c.method != nil && c.method.neg
+}
+
 // ---------------------------------------------------------------------------
 // enumeration
 
 type statsA struct {
+	// order oracle and signed-weight dimension
+	orderPairs, orderPairsAccepted     int
+	configsNeg                         int
+	monoSkippedNeg, obsVetoPairs       int
+	marginAt, marginBelow, marginAbove int
+	negSat, negSatAccept, negSatReject int
+	defAccept, defReject               int
+
 	evals, judged, unjudged           int
 	accept, reject, errs              int
 	nontrivial                        int
@@ -893,6 +997,19 @@ type statsA struct {
 }
 
 func (s *statsA) add(o *statsA) {
+	s.orderPairs += o.orderPairs
+	s.orderPairsAccepted += o.orderPairsAccepted
+	s.configsNeg += o.configsNeg
+	s.monoSkippedNeg += o.monoSkippedNeg
+	s.obsVetoPairs += o.obsVetoPairs
+	s.marginAt += o.marginAt
+	s.marginBelow += o.marginBelow
+	s.marginAbove += o.marginAbove
+	s.negSat += o.negSat
+	s.negSatAccept += o.negSatAccept
+	s.negSatReject += o.negSatReject
+	s.defAccept += o.defAccept
+	s.defReject += o.defReject
 	s.evals += o.evals
 	s.judged += o.judged
 	s.unjudged += o.unjudged
@@ -938,6 +1055,10 @@ func evalConfig(c *config, ls *listSet, res []uint8, jr *jobResult, e *refEval) 
 	var ubuf [8][]int
 	st := &jr.stats
 	st.configs++
+	neg := c.hasNegativeWeight()
+	if neg {
+		st.configsNeg++
+	}
 	acc, rej := 0, 0
 	for li := range ls.lists {
 		l := ls.lists[li]
@@ -982,6 +1103,29 @@ func evalConfig(c *config, ls *listSet, res []uint8, jr *jobResult, e *refEval) 
 		}
 		st.judged++
 		expected := lo
+		if expected {
+			st.defAccept++
+		} else {
+			st.defReject++
+		}
+		if e.rootThr {
+			switch e.rootMargin {
+			case 0:
+				st.marginAt++
+			case -5:
+				st.marginBelow++
+			case 5:
+				st.marginAbove++
+			}
+		}
+		if e.negSat {
+			st.negSat++
+			if expected {
+				st.negSatAccept++
+			} else {
+				st.negSatReject++
+			}
+		}
 		if (out == outAccept) == expected {
 			continue
 		}
@@ -1011,9 +1155,42 @@ func evalConfig(c *config, ls *listSet, res []uint8, jr *jobResult, e *refEval) 
 	if acc > 0 && rej > 0 {
 		st.configsBoth++
 	}
-	// monotonicity on every pair (list minus one entry, list)
+	// order: the verdict is a function of the signer SET, so every list gets the
+	// verdict of the same entries in ascending universe order (all orders of a list
+	// are enumerated, so every permutation is compared with every other through it)
+	for li := range ls.lists {
+		ci := int(ls.canon[li])
+		if ci == li {
+			continue
+		}
+		st.orderPairs++
+		if res[ci] == outAccept {
+			st.orderPairsAccepted++
+		}
+		if (res[li] == outAccept) == (res[ci] == outAccept) {
+			continue
+		}
+		jr.violation(core.Violation{
+			Key:      "c11.verdict_depends_on_signer_order",
+			Summary:  fmt.Sprintf("%s: signers %v -> %s, the same entries as %v -> %s", c.describe(), ls.symbolic(li), outStr(int(res[li])), ls.symbolic(ci), outStr(int(res[ci]))),
+			Case:     caseA{Part: "A", Check: "order", Target: tgtName[c.target], Rules: c.ruleMap(), Signers: ls.symbolic(li), Super: ls.symbolic(ci)},
+			Expected: "the same verdict for every order of the same signer entries",
+			Observed: fmt.Sprintf("%v: %s; %v: %s", ls.symbolic(li), outStr(int(res[li])), ls.symbolic(ci), outStr(int(res[ci]))),
+		})
+	}
+	// monotonicity on every pair (list minus one entry, list); the statement
+	// promises it for non-negative weights only: with a negative weight somewhere
+	// in the configuration the pairs are counted, not judged (the by-definition
+	// oracle above says what each list must get)
 	for li := range ls.lists {
 		for _, si := range ls.subs[li] {
+			if neg {
+				st.monoSkippedNeg++
+				if res[si] == outAccept && res[li] != outAccept && !ls.hasBad[li] {
+					st.obsVetoPairs++
+				}
+				continue
+			}
 			st.monoPairs++
 			if res[si] != outAccept {
 				continue
@@ -1164,7 +1341,10 @@ func runPartA(rep *core.Report, tier core.Tier) {
 		byKind[ambName[k]] = map[string]int{"impl_reject": st.obsKind[k][0], "impl_accept": st.obsKind[k][1]}
 	}
 	rep.Set("a.observed.unjudged_by_silent_spot", byKind)
+	rep.Set("a.order_pairs", st.orderPairs)
+	rep.Set("a.order_pairs_with_accepted_sorted_list", st.orderPairsAccepted)
 	rep.Set("a.complete", complete)
 	rep.Add("evaluations", st.evals)
 	rep.Add("distinct_nontrivial", st.nontrivial)
+	runSignedBox(rep, tier)
 }
